@@ -323,7 +323,7 @@ impl ModelW {
                     }
                 }
             }
-            Step::Ver { mode, key, m, sig, ctx, ch: _, chosen, d: _, ksrc } => {
+            Step::Ver { mode, key, m, sig, ctx, ch: _, chosen, d: _, ksrc, hon } => {
                 let ch = chosen.as_ref().map(|c| c.a64());
                 // the key bytes the verifier ends up holding
                 let kb: Vec<u8> = match ksrc {
@@ -345,7 +345,13 @@ impl ModelW {
                     if cfg!(debug_assertions) {
                         return Out::Skip;
                     }
-                    o.any("accept");
+                    if *hon {
+                        // an honest signature can only have been made under a context of at most 255 bytes, so this longer
+                        // one is "another context": it must be rejected (C08), whatever the verifier does with the excess
+                        o.f("accept", false);
+                    } else {
+                        o.any("accept");
+                    }
                 }
             }
             Step::BQ { q, m, sig, key } => {
@@ -859,7 +865,7 @@ impl RealW {
                     }
                 }
             }
-            Step::Ver { mode, key, m, sig, ctx, ch, chosen, d, ksrc } => {
+            Step::Ver { mode, key, m, sig, ctx, ch, chosen, d, ksrc, .. } => {
                 let vk = match ksrc {
                     1 => Some(VerifyingKey::default()),
                     2 => VerifyingKey::try_from(&key.0[..]).ok().map(|k| VerifyingKey::from(k.to_edwards())),
